@@ -880,3 +880,5 @@ META = {
 }
 
 META["more"] += ' No write or delete changes both layers of the two-layer store. Env.swap captures a key once (a second source keeps the first capture), a set that fails on entry still reaches the restore, the overlay pop may be governed by a flag set right after the push, and the exit leaves no private copy for a key that had none when captured (four defects repaired). Iteration yields keys that only an overlay provides.'
+
+META["more"] += " A default computed from the thread's scoped view must not be stored in the shared mapping (known finding: Env.__getitem__ materialises computed defaults unconditionally)."
